@@ -512,15 +512,18 @@ func run(c *core.C) {
 		}
 	} else {
 		cfg = []pc{
-			{"unordered-channel+alias", []int{rV1U, rV2A}, all, 2, 3, 0, 7, false},
-			{"ordered-channel+v2-client", []int{rV1O, rV2C}, all, 2, 3, 0, 7, false},
-			{"ics20+rate-limit+forward", []int{rT20}, all, 2, 3, 0, 8, false},
-			{"all-routes-mixed", []int{rV1U, rV1O, rV2A, rV2C, rT20}, all, 1, 2, 0, 5, false},
+			{"unordered-channel+alias", []int{rV1U, rV2A}, all, 1, 2, 0, 7, false},
+			{"ordered-channel+v2-client", []int{rV1O, rV2C}, all, 1, 2, 0, 7, false},
+			{"async-acks", []int{rV1U, rV2A, rV2C}, []int{kAsync}, 1, 2, 0, 6, false},
+			{"timeouts", []int{rV1O, rV2A, rV2C}, []int{kShort}, 2, 2, 0, 5, false},
+			{"ics20+rate-limit+forward", []int{rT20}, all, 2, 3, 0, 7, false},
+			{"all-routes-mixed", []int{rV1U, rV1O, rV2A, rV2C, rT20}, []int{kOK}, 1, 2, 0, 5, false},
 			{"same-client-ids-on-both-chains", []int{rV2C}, []int{kOK}, 1, 1, 0, 3, true},
 		}
 	}
 	var parts []ksim.Part
-	for _, p := range cfg {
+	for i, p := range cfg {
+		_ = i
 		sc := mk(c, rt, p.name, p.routes, p.kinds, p.maxSend, p.maxCommits)
 		sc.SameIDs = p.sameIDs
 		parts = append(parts, ksim.Part{Name: p.name, Sc: sc, Cfg: ksim.Config{MaxDepth: max(p.depthQ, p.depthT)}})
@@ -530,11 +533,12 @@ func run(c *core.C) {
 		for _, p := range []pc{
 			{"unordered-channel+alias/sync-acks", []int{rV1U, rV2A}, all, 2, 3, 0, 0, false},
 			{"ordered-channel+v2-client/sync-acks", []int{rV1O, rV2C}, all, 2, 3, 0, 0, false},
-			{"async-acks", []int{rV1U, rV2A, rV2C}, all, 2, 3, 0, 0, false},
-			{"timeouts", []int{rV1O, rV2A, rV2C}, all, 2, 3, 0, 0, false},
 		} {
 			parts = append(parts, ksim.Part{Name: p.name, Sc: mk(c, rt, p.name, p.routes, p.kinds, p.maxSend, p.maxCommits)})
 		}
+	}
+	if replayRoot(c, parts) {
+		return
 	}
 	ksim.RunParts(c, parts, [][]ksim.Op{
 		{{K: "send", A: []int{rV2A, kOK}}, {K: "sync", A: []int{0}}, {K: "recv", A: []int{0}}, {K: "sync", A: []int{1}}, {K: "ack", A: []int{0}}},
@@ -546,4 +550,30 @@ func run(c *core.C) {
 	c.Assume("export and import go through each module's AppModule.ExportGenesis / ValidateGenesis / InitGenesis with the application's JSON codec, in the application's genesis order; the surrounding whole-app export (ExportAppStateAndValidators, zero-height preparation) is not exercised")
 	c.Assume("counterparty consensus, storage commit and validator signing are played by the harness (real IAVL proofs, real signed headers, verified by the unmodified 07-tendermint client)")
 	c.Assume("GMP (27-gmp) accounts and 08-wasm state are not produced by this scenario: the gmp store is compared but stays empty; 08-wasm lives in a separate module/app")
+}
+
+// replayRoot re-evaluates a violation recorded in a root state (empty history), which ksim.ReplayParts does not evaluate.
+func replayRoot(c *core.C, parts []ksim.Part) bool {
+	if c.Replay == "" {
+		return false
+	}
+	var art struct {
+		Part    string    `json:"part"`
+		History []ksim.Op `json:"history"`
+	}
+	if err := c.LoadReplay(&art); err != nil || len(art.History) > 0 {
+		return false
+	}
+	for _, p := range parts {
+		if p.Name == art.Part {
+			w := p.Sc.Init(ksim.NewWorker(c.T, p.Sc.Chains()))
+			w.Flatten()
+			p.Sc.Invariant(w)
+			c.Set("states", 1)
+			c.Set("transitions", 0)
+			c.Set("replayed_history", "[]")
+			return true
+		}
+	}
+	return false
 }
